@@ -242,6 +242,9 @@ type World struct {
 	Viol   *Violation
 	Stats  *RunStats
 	OpIdx  int
+	opIOSnap map[int]map[byte]int
+	RecordIO bool
+	OpIO     []map[int]map[byte]int // per top-level op: disk -> call class -> count
 	sub    int
 	depth  int
 	Judge  map[string]bool // nil: judge everything
@@ -558,4 +561,26 @@ func itemsDiff(got, want []MItem, checkVal, checkPrio bool) string {
 		return fmt.Sprintf("got %d items, want %d; first missing key %s", len(got), len(want), showBytes(want[n].K))
 	}
 	return ""
+}
+
+// clearFaults ends the fault window of the current operation (checks that
+// the harness itself runs inside an operation must not be faulted).
+func (w *World) clearFaults() {
+	if w.RecordIO && w.opIOSnap == nil {
+		w.opIOSnap = w.ioCounts()
+	}
+	for _, d := range w.Disks {
+		d.BeginOp(nil)
+	}
+}
+
+// ioCounts: StoreFile calls of the current operation so far, per disk.
+func (w *World) ioCounts() map[int]map[byte]int {
+	m := map[int]map[byte]int{}
+	for _, d := range w.Disks {
+		if c := d.OpCounts(); len(c) > 0 {
+			m[d.ID] = c
+		}
+	}
+	return m
 }
